@@ -52,6 +52,21 @@ def run_row(row):
     nav("navigate(URL)", lambda: b.navigate(URL(ref)).to_text(), target)
     if b.to_text() != before or URL(base).to_text() != before:
         bad.append(("base-modified", b.to_text(), before))
+    # the same absolute base URL as an object built another way (unrooted path_parts via from_parts, path assigned as text):
+    # taken only when it renders to the very same base text
+    if len(b.path_parts) > 1 and b.path_parts[0] == "":
+        alts = []
+        try:
+            alts.append(("navigate(from_parts-base)", URL.from_parts(scheme=b.scheme, host=b.host, path_parts=b.path_parts[1:], query_params=b.query_params,
+                                                                     fragment=b.fragment, port=b.port, username=b.username, password=b.password)))
+            b3 = URL(base)
+            b3.path = b.path[1:]
+            alts.append(("navigate(path-assigned-base)", b3))
+        except Exception:
+            alts = []
+        for label, alt in alts:
+            if alt.to_text() == before:
+                nav(label, lambda alt=alt: alt.navigate(ref).to_text(), target)
     if not (row["rq"] or row["rf"]):
         nav("chained", lambda: URL(base).navigate(ref).navigate(ref2).to_text(), target2)
 
